@@ -88,6 +88,10 @@ def optimize_spec(spec):
     from glotaran.optimization.optimize import optimize
 
     scheme = S.build_scheme(spec)
+    # one free parameter is enough for C08 and keeps the degrees of freedom positive on one- and two-point axes
+    for p in scheme.parameters.all():
+        if p.label != "rate.m1.1":
+            p.vary = False
     with warnings.catch_warnings(record=True) as w:
         warnings.simplefilter("always")
         res = optimize(scheme, verbose=False, raise_exception=True)
